@@ -1,4 +1,4 @@
-CONSTANTS KeyMode = "exact" MaxAssign = 2 MaxSaves = 2 Pairs = TRUE Wide = FALSE EmitReplay = TRUE
+CONSTANTS KeyMode = "exact" NBooks = 1 PalKind = "full" MaxImport = 0 MaxAssign = 2 MaxSaves = 2 Pairs = TRUE Wide = FALSE EmitReplay = TRUE
 SPECIFICATION MCSpec
 INVARIANTS Emit
 CHECK_DEADLOCK FALSE
